@@ -187,7 +187,7 @@ def run(ctx):
             for v in lv:
                 # a lost volume is deleted or DAMAGED (present but not intact): it must then count as unusable, not stop the operation
                 vb = fs[v]
-                kind = rng.choice(["delete", "delete", "flip", "truncate", "garbage", "empty", "append"])
+                kind = rng.choice(["delete", "delete", "flip", "truncate", "garbage", "empty", "append", "foreign", "misnumbered"])
                 if kind == "delete":
                     del fs[v]
                 elif kind == "flip":
@@ -198,10 +198,25 @@ def run(ctx):
                     fs[v] = L.gen_content(rng, "random", rng.choice([1, 95, 96, 97, len(vb)]))
                 elif kind == "empty":
                     fs[v] = b""
+                elif kind == "foreign":
+                    # a well-formed volume of ANOTHER set under this name (a stale volume of an earlier Create, a copy from
+                    # elsewhere): another set hash - unusable, not fatal
+                    others = [o for o in sets if o is not s and o.created is not None and o.volumes]
+                    fs[v] = others[len(cases) % len(others)].created[others[len(cases) % len(others)].volumes[0]] if others else b""
+                elif kind == "misnumbered":
+                    # one of this set's own volumes under the wrong number (two volume files exchanged / renamed)
+                    sib = [w for w in s.volumes if w != v]
+                    fs[v] = s.created[sib[len(cases) % len(sib)]] if sib else b""
                 else:
                     fs[v] = vb + b"\x00"
                 vhow.append(kind)
             how = how + ["vol:" + k for k in vhow]
+            if rng.random() < 0.3:
+                # a stale volume BEYOND the set's own count (Create with more volumes earlier): it belongs to no one
+                others = [o for o in sets if o is not s and o.created is not None and o.volumes]
+                if others and len(s.volumes) < 99:
+                    fs[s.index[:-len(".par")] + ".p%02d" % (len(s.volumes) + 1)] = others[len(cases) % len(others)].created[others[len(cases) % len(others)].volumes[-1]]
+                    how.append("stale-extra-volume")
             mode = "real" if rng.random() < 0.15 else "mem"
             dirs = [D]
             cases.append({"set": s, "desc": "lost files %s (%s), lost volumes %d/%d" % (list(lf), ",".join(how), len(lv), len(s.volumes)),
@@ -297,6 +312,24 @@ def c02_part(ctx, vh, model, report, extra):
                 report(bad, replay)
             elif L.canon(i, "real") != L.canon(m, "real"):
                 report("PAR1 (real directory) differs from the model: impl=%s model=%s" % (i[:90], m[:90]), replay, True)
+    # PAR1 Create AGAIN with the set's own index / volume files among the inputs: they must be byte-identical afterwards
+    s0 = small_created(ctx, vh, model, report, rng, nf=2, nv=2)
+    if s0.created is not None:
+        data = [s0.paths[x] for x, _ in s0.files]
+        for extra_in, mode in (([s0.index], "mem"), (s0.volumes[:1], "mem"), (s0.volumes, "real"), ([s0.index[:-4] + ".p03"], "mem")):
+            fs_ = dict(s0.created); fs_.setdefault(s0.index[:-4] + ".p03", b"a file of mine that only looks like a third volume")
+            line = P1.line_create(mode, s0.index, s0.nvol, data + extra_in, fs_)
+            i, m = run_both(ctx, vh, model, [line])
+            pi = L.parse_result(i[0])
+            n += 1
+            ctx.count("p1c02-create-again|" + L.hx(L.md5(line.encode())), True)
+            after = L.apply_changed(fs_, pi["changed"])
+            hurt = [p_ for p_ in data + extra_in if after.get(p_) != fs_.get(p_)]
+            replay = {"lines": [line], "mode": mode, "impl": i[0][:1200], "model": m[0][:1200], "class": {"par1": "c02-create-inputs-are-outputs"}}
+            if hurt:
+                report("PAR1 Create modified its own input files %s (inputs that are also files it writes), result %s" % (hurt, pi["res"]), replay)
+            elif L.canon(i[0], mode) != L.canon(m[0], mode):
+                report("PAR1 Create over its own outputs differs from the model: impl=%s model=%s" % (i[0][:90], m[0][:90]), replay, True)
     # parity volumes with a valid control hash and the right set hash but WRONG parity bytes (a stale volume of an earlier
     # version with the same file hashes recorded, a faulty writer), exactly as many as files are lost: reconstruction gives
     # wrong bytes, a re-encoding double check agrees with the volumes it used, and only the file hashes can stop the write
